@@ -424,6 +424,50 @@ def validate_py_oracle(rep, scs):
     return n
 
 
+def rendered_sample(rep, scs, tier):
+    """plot=True: the QuadMesh of the returned figure holds the layer data, the axes span the window in the unit of dx and are labelled with it"""
+    import matplotlib.pyplot as plt
+    import numpy as np
+    import osyris
+    step = 97 if tier == "quick" else 23
+    for idx, sc in enumerate(scs):
+        if idx % step or sc["m"]["nd"] != 3:
+            continue
+        table = sc["table"][0]
+        if all(c[0] == -1 for row in table for c in row):
+            continue
+        f = 1.0 / 32.0
+        dg, vec = build_group(sc, 1.0)
+        nx, ny = sc["nx"], sc["ny"]
+        dxl, dyl = 2 * nx * sc["s"], 2 * ny * sc["sy"]
+        kw = {"dx": dxl * f * 0.01 * osyris.units("m"), "dy": dyl * f * 0.01 * osyris.units("m"), "origin": osyris.Vector(*[sc["origin"][d] * f for d in range(3)], unit="cm"),
+              "resolution": {"x": nx, "y": ny}, "direction": direction_of(sc)}
+        rep.case(klass=("rendered", idx))
+        try:
+            with contextlib.redirect_stdout(io.StringIO()):
+                p = osyris.map(dg.layer("density"), plot=True, **kw)
+            qm = [c for c in p.ax.collections if hasattr(c, "get_array")][0]
+            arr = np.ma.masked_invalid(np.ma.asarray(qm.get_array())).reshape(ny, nx)
+            data = p.layers[0]["data"]
+            d = None
+            if not (np.array_equal(np.ma.getmaskarray(arr), np.ma.getmaskarray(data)) and np.allclose(np.ma.filled(arr, 0), np.ma.filled(data, 0))):
+                d = "rendered: the QuadMesh array differs from the layer data"
+            xl, yl = p.ax.get_xlim(), p.ax.get_ylim()
+            wx, wy = dxl * f * 0.01, dyl * f * 0.01
+            if d is None and not (np.allclose(xl, (-wx / 2, wx / 2), rtol=1e-9) and np.allclose(yl, (-wy / 2, wy / 2), rtol=1e-9)):
+                d = f"rendered: axis limits {xl} {yl} are not the window +-{wx / 2}, +-{wy / 2} in the unit of dx"
+            if d is None and "[m]" not in p.ax.get_xlabel():
+                d = f"rendered: x label {p.ax.get_xlabel()!r} does not carry the unit of dx"
+            if d:
+                rep.mismatch({"module": "MapMachine", "field": "rendered", "kind": "thin"}, f"{describe(sc, kw)}: {d}", case={"sc": sc, "idx": idx}, module="maps")
+            else:
+                rep.validated()
+        except Exception as e:
+            rep.mismatch({"module": "MapMachine", "field": "raises", "kind": "rendered"}, f"{describe(sc, kw)} plot=True: {type(e).__name__}: {e}", case={"sc": sc, "idx": idx}, module="maps")
+        finally:
+            plt.close("all")
+
+
 def big_mesh_threads(rep, tier):
     """4096 cells, 64 x 64 pixels: every pixel against the exact cell index, for every thread count, repeated"""
     import numba
@@ -468,6 +512,18 @@ def run_c03(rep, tier, seed):
         rep.part("structure", **facts)
     except MachineryError as e:
         rep.part("structure", unrecognised=str(e))
+    # the kernel's concurrency structure explored by TLC (MapKernel.tla): inside pixels are schedule independent, face pixels take
+    # entries of touching cells; with a parallel loop a torn face pixel is reachable (recorded; the comparer accepts it per entry)
+    par = bool(facts["parallel"]) if facts else True
+    os.makedirs(os.path.join(common.WORK, "cfg"), exist_ok=True)
+    for extra, label in (("", "MapKernel safety"), ("INVARIANT FacePixelFromOneCell\n", "MapKernel torn-face-pixel reachability")):
+        cfgp = os.path.join(common.WORK, "cfg", "MapKernel" + ("2" if extra else "") + ".cfg")
+        with open(cfgp, "w") as f:
+            f.write(open(os.path.join(common.TLA, "cfg", "MapKernel.cfg")).read() + f"CONSTANT Parallel = {'TRUE' if par else 'FALSE'}\n" + extra)
+        res = common.run_tlc("MapKernel", cfgp, workers=2, timeout=300, expect_ok=not extra)
+        rep.tlc(res, label)
+        if extra:
+            rep.part("kernel-model", parallel=par, torn_face_pixel_reachable=bool(res.violated))
     scs = tlc_scenarios(rep, False, 37 if tier == "quick" else 3, "thin-maps")
     n = validate_py_oracle(rep, scs)
     rng = random.Random(seed + 51)
@@ -477,6 +533,7 @@ def run_c03(rep, tier, seed):
         check_thin(rep, sc, threads, rng, idx, tier)
         if idx % 2 == 0:
             check_oblique(rep, sc, rng, idx, threads)
+    rendered_sample(rep, scs, tier)
     big_mesh_threads(rep, tier)
     numba.set_num_threads(maxt)
     rep.sample({"scenario": {k: scs[0][k] for k in ("basis", "origin", "nx", "ny", "s", "sy")}, "cells": len(scs[0]["m"]["cells"]), "containing_cell_per_pixel": scs[0]["table"][0]}, limit=2)
